@@ -475,6 +475,48 @@ def run(prog, ctx):
                 ctx.fail("M11", inst11, node.where, why, key="insert-position:%s" % h.name)
             else:
                 ctx.inconclusive("M11", inst11, node.where, why)
+    # ---- M11b "section not found" is decided on something that cannot also be a position ----------------------------------------
+    m11b_fns = {}
+    for h, st, l, inner in charges.get("override", []):
+        m11b_fns[h.name] = (h, inner)
+    if prog.has_fn("add_new_groups") and "add_new_groups" not in m11b_fns:
+        h0 = prog.fn("add_new_groups")
+        outer0 = [x for x in h0.walk() if x.k in ("ForStmt", "WhileStmt") and not any(a.k in ("ForStmt", "WhileStmt") for a in x.ancestors())]
+        if outer0:
+            m11b_fns["add_new_groups"] = (h0, outer0[0])
+    for h, inner in m11b_fns.values():
+        hcfg = h.cfg
+        for lhs2, rhs2, st2, kind2 in query.stores(h):
+            r2 = rhs2.strip() if rhs2 is not None else None
+            if r2 is None or r2.k != "ConditionalOperator" or MARKER not in render(r2.child("cond")):
+                continue
+            # the test(s) under which this "new section" position is chosen
+            for (b3, i3, s3) in hcfg.edges():
+                lit = hcfg.edge_lit(b3, i3)
+                if lit is None or lit.kind != "truth" or lit.node.k != "DeclRefExpr" or lit.node.j.get("dk") != "local":
+                    continue
+                if hcfg.blocks[b3].succs[i3] != hcfg.block_of(st2) and not (hcfg.dominates(s3, hcfg.block_of(st2)) and hcfg.block_of(st2) not in hcfg.reachable(hcfg.blocks[b3].succs[1 - i3], avoid_blocks=[hcfg.loop_header(inner)])):
+                    continue
+                V = lit.atom
+                defs = [(l9, r9, s9) for l9, r9, s9 in h.assignments() if (l9["name"] if isinstance(l9, dict) else render(l9)) == V and r9 is not None]
+                init = [r9.const_value() for l9, r9, s9 in defs if r9.const_value() is not None]
+                amb = None
+                for l9, r9, s9 in defs:
+                    if r9.const_value() is not None:
+                        continue
+                    t9 = render(r9.strip())
+                    lp9 = next((a9 for a9 in s9.ancestors() if a9.k in ("ForStmt", "WhileStmt")), None)
+                    sh9 = loops.index_shape(lp9) if lp9 is not None else None
+                    if sh9 is not None and sh9.ok and t9 == sh9.var and sh9.start_node is not None and sh9.start_node.const_value() in init:
+                        amb = (s9, sh9)
+                if amb is not None and not lit.pol:
+                    ctx.fail("M11", "%s: `section not found` is told apart from every position" % h.name, lit.node.where,
+                             "`!%s` stands for 'the result has no entry of this section', but `%s` is also what it holds when the only entry of the section is "
+                             "entry %s (`%s`): a key only the override has is then placed as if its section were new (in front of everything / at the very end)"
+                             % (V, V, amb[1].start, render(amb[0])), key="insert-sentinel:%s" % h.name)
+                elif defs:
+                    ctx.ok("M11", "%s: `section not found` is told apart from every position" % h.name, lit.node.where,
+                           "`%s` cannot hold the value it starts with once a section entry was seen" % V)
     # ---- M9 every helper runs for every pair (also for an empty base or override) ---------------------------------
     mcfg = m.cfg
     succ_rets = [r2 for r2 in m.returns() if query.returned_constant(r2) in ("ECONF_SUCCESS", 0)]
